@@ -209,3 +209,16 @@ pub fn detect(input: &[u8], mode: &Mode) -> Result<Option<Fmt>, String> {
     };
     r.map(|o| o.map(Fmt::from_xt)).map_err(|e| e.to_string())
 }
+
+/// Like `detect`, also reporting whether the reader delivered its end of file
+/// (a zero-byte read) while detection ran.
+pub fn detect_eof(input: &[u8], mode: &Mode) -> (Result<Option<Fmt>, String>, bool) {
+    match mode {
+        Mode::Slice => (detect(input, mode), true),
+        Mode::Reader(s) => {
+            let mut r = SchedReader::new(input, s.clone());
+            let res = xt::verif::detect_reader(&mut r);
+            (res.map(|o| o.map(Fmt::from_xt)).map_err(|e| e.to_string()), r.eof_reads > 0)
+        }
+    }
+}
